@@ -237,6 +237,20 @@ func vC15Nets(t *testing.T, out *vEmitter) {
 		{"::/0"},
 		{"::ffff:0:0/96", "2001:db8::1"},
 		{"10.0.0.0/30", "10.0.0.4/30", "10.0.0.8/29", "10.0.0.0/28", "10.0.0.16/28"},
+		// nested networks sharing their base address, the narrow one listed first
+		{"10.0.0.0/24", "10.0.0.0/8"},
+		{"fd00::/64", "fd00::/16", "127.0.0.1", "127.0.0.0/8"},
+		{"192.168.1.77", "192.168.1.64/26", "192.168.1.0/24", "192.168.0.0/16"},
+	}
+	// the order of the configured list must not matter: every set also reversed
+	for _, nets := range append([][]string(nil), sets...) {
+		if len(nets) > 1 {
+			rev := make([]string, len(nets))
+			for i, n := range nets {
+				rev[len(nets)-1-i] = n
+			}
+			sets = append(sets, rev)
+		}
 	}
 	for _, nets := range sets {
 		ns := ip.NewNetSet()
